@@ -15,6 +15,7 @@ func registerModels(in *Interp) {
 	registerHTTPModels(in)
 	registerSandboxModels(in)
 	registerCLIModels(in)
+	registerStoreCommon(in)
 }
 
 // ---------------------------------------------------------------- path / file-system stubs
@@ -333,3 +334,5 @@ func registerFSTable(in *Interp) {
 	}
 }
 
+
+func c18PebbleCfgs(c *CheckCtx) []*HarnessCfg { return nil }
